@@ -95,7 +95,7 @@ def alive07 : Phase → Bool
 
 /-- the payload an operation submits -/
 def begPl (o : Nat) : OpKind → Option Payload
-  | .send m | .trySend m => some (.msg m none)
+  | .send m | .trySend m | .tryForce m => some (.msg m none)
   | .call m | .callw m | .tryCall m => some (.msg m (some o))
   | .ping => some (.ping o)
   | .halt | .tryHalt | .consume => some .stop
